@@ -29,6 +29,9 @@ def types(names, gapfrac):
     t = {}
     if 'A' in names:
         t['A'] = S.design(3, pd=1.20, oftf=OFTF, clearance='mid')
+    if 'A2' in names:
+        # the same bundle with a pin pitch 0.5 % larger: gap meshes that are nearly, not exactly, equal
+        t['A2'] = S.design(3, pd=1.206, oftf=OFTF, clearance='mid')
     if 'B' in names:
         t['B'] = S.design(2, pd=1.30, oftf=OFTF, clearance='loose')
     if 'C' in names:
@@ -55,7 +58,7 @@ def types(names, gapfrac):
     return t
 
 
-RINGS = {'A': 3, 'B': 2, 'C': 4, 'U': 3, 'D': 3, 'Ds': 3, 'S': 3, 'S5': 3}
+RINGS = {'A': 3, 'A2': 3, 'B': 2, 'C': 4, 'U': 3, 'D': 3, 'Ds': 3, 'S': 3, 'S5': 3}
 NDUCT = {'D': 2, 'Ds': 2}
 
 
@@ -308,6 +311,11 @@ def cases(tier):
                 for gf in (0.002, 0.05):
                     out.append({'layout': lay, 'gapfrac': gf, 'gap_model': gm, 'max_steps': 60})
         out.append({'layout': ['A'] * 7 + ['B', None] * 6, 'gapfrac': 0.05, 'gap_model': 'flow', 'max_steps': 20})
+        for lay in (['A', 'A2', 'A', 'A2', 'A', 'A', 'A2'], ['A2', 'A', 'A2', None, 'A', 'A2', 'A']):
+            out.append({'layout': lay, 'gapfrac': 0.05, 'gap_model': 'flow', 'max_steps': 40})
+        # a very small gap flow (still the flowing-gap model)
+        for lay in full[:2]:
+            out.append({'layout': lay, 'gapfrac': 0.0005, 'gap_model': 'flow', 'max_steps': 60})
         for lay in full:
             out.append({'layout': lay, 'gapfrac': 0.05, 'gap_model': 'flow', 'max_steps': 60, 'ftf': 'outer-first'})
     else:
